@@ -47,6 +47,18 @@ CHECKS = {
              'Lookup paths are chunk-safe (no UTF-8 character straddles a record) because single records are dropped.',
         technique='hostile-history workload + exception oracle at the feed/str boundary + sys.monitoring handler '
                   'coverage + ddmin witness shrinking'),
+    'C06': dict(
+        category='fault_enumeration', design_ref='DESIGN.md section 4, C06',
+        text='Crash points are enumerated exhaustively: every byte offset 0..len of each generated v2/v3 dump is cut and '
+             'run through the event, trace and formatted pipelines (and, on a stride, the click CLI with -c limits) '
+             'under an instrumented reader with a linear read budget and a sys.monitoring step clock; the output '
+             'before the stop must be a prefix of the full output, no event may come from a partial record, and '
+             'lines(c) == lines(all)[:c]. The dumps themselves are sampled.',
+        note='Termination is decided as bounded progress (20*len+10000 read calls, 2000*len+10^6 interpreter lines per '
+             'cut). Trusted: vlib/wire.py builders, click CliRunner. v2 first records start with a non-zero byte '
+             '(open finding F02).',
+        technique='exhaustive truncation-offset fault injection + CountingReader/StepClock budgets + prefix oracle '
+                  'against the full-file run'),
 }
 
 PENDING_REASON = 'check not yet built in this session (design in DESIGN.md section 4); not claimed until it exists'
